@@ -9,6 +9,8 @@ def jobs(tier):
     return [
         # clauses 1+2: packet structure (framing model) and multistream == stand-alone decoding through the mapping
         Job("c10_multistream", "flt-asan", "random", workers=W, cases=1200 if q else 20000, maxtime=120 if q else 900),
+        # fixed-point build: the multistream copy-in / copy-out helpers convert through the 16-bit internal format there
+        Job("c10_multistream", "fix-asan", "random", workers=W, cases=400 if q else 6000, maxtime=120 if q else 600, seed_salt=41),
         # clause 3: every (family, channels) pair for both creation functions, then random plain layouts
         Job("c10_layouts", "flt-asan", "enumerate", workers=W, enum_stride=1, maxtime=120 if q else 600),
         Job("c10_layouts", "flt-asan", "random", workers=W, cases=4000 if q else 60000, maxtime=60 if q else 300),
